@@ -49,7 +49,7 @@ THEOREMS = [
     "Measured.parseWith_stable", "Measured.parseWith_idempotent", "Measured.transformerAct_ok",
     "Measured.C17.parse_idempotent_unit", "Measured.C17.parse_idempotent_quantity", "Measured.C17.parse_repeatable", "Measured.C17.parse_magnitude_type", "Measured.C17.parse_magnitude_as_written", "Measured.C17.parse_magnitude_int_iff", "Measured.C17.parse_int_magnitude_is_integer_literal", "Measured.pyInt_ok_shape",
     "Measured.Obligations.reachable_good", "Measured.Obligations.reachable_parse_idempotent_unit",
-    "Measured.Obligations.reachable_parse_idempotent_quantity",
+    "Measured.Obligations.reachable_parse_idempotent_quantity", "Measured.Obligations.reachable_parse_magnitude_as_written",
 ]
 LEAN_TARGETS = ["Props.C17", "Obligations.C17"]
 QUICK = {"chunks": 8, "ops": 1500}
